@@ -23,6 +23,9 @@ type World struct {
 	Name   string            `json:"name"`
 	Module string            `json:"module"`
 	Files  map[string]string `json:"files"` // relative path → content (go.mod is added on materialisation)
+	// Symlinks: relative path of a symbolic link → key in Files of the regular file it
+	// points to (materialised as a relative link). The link is an input like any other file.
+	Symlinks map[string]string `json:"symlinks,omitempty"`
 	// Patterns are the canonical package patterns (relative `./x` or import paths).
 	Patterns []string `json:"patterns"`
 	Globals  []string `json:"globals,omitempty"`
@@ -38,6 +41,12 @@ func (w *World) Clone() *World {
 	c.Files = map[string]string{}
 	for k, v := range w.Files {
 		c.Files[k] = v
+	}
+	if w.Symlinks != nil {
+		c.Symlinks = map[string]string{}
+		for k, v := range w.Symlinks {
+			c.Symlinks[k] = v
+		}
 	}
 	c.Patterns = append([]string(nil), w.Patterns...)
 	c.Globals = append([]string(nil), w.Globals...)
